@@ -269,3 +269,12 @@ void h_policy(void) {
   ASSERT(cv_rehash_calls == (GC_Ideal_Size(in_items) < in_slots) && (!cv_rehash_calls || cv_rehash_to == GC_Ideal_Size(in_items)), "[C17] shrinking rehashes to the ideal capacity exactly when it is below the current one");
   COVER(1, "policy checked");
 }
+/* GC_Probe (loop-free, every capacity up to 2^40): the probe distance of slot i for stored home h */
+void h_probe(void) {
+  static struct GC G2; uint64_t in_i = nondet_ulong(), in_h = nondet_ulong(); size_t in_n = nondet_ulong();
+  __CPROVER_assume(in_n >= 1 && in_n <= (1UL << 40) && in_i < in_n && in_h >= 1 && in_h - 1 < in_n);
+  G2.nslots = in_n;
+  uint64_t d = GC_Probe(&G2, in_i, in_h);
+  ASSERT(d < in_n && (in_h - 1 + d) % in_n == in_i, "[C17] the probe distance is (i - home) mod nslots, for every capacity");
+  COVER(in_i < in_h - 1, "probe distance across the wrap-around");
+}
